@@ -134,6 +134,127 @@ theorem loft_closed (lower upper : List (Pt2 ℝ)) (height : ℝ) (p : Polyhedro
   rw [hf, allEdges_append, allEdges_append]
   exact capped_strip_closed lower.length 0 1 _ _ d1 d2 (by simpa using h1) (by simpa using h2)
 
+/-- the face list of a revolve -/
+theorem rotateExtrude_faces (profile2 : List (Pt2 ℝ)) (degrees : ℝ) (segments : Nat) (p : Polyhedron ℝ)
+    (h : rotateExtrude profile2 degrees segments = some p) :
+    let n := profile2.length
+    let body := (List.range (segments - 1)).flatMap fun j => stripRev n j (j + 1)
+    (degrees = 360 ∧ p.faces = body ++ (List.range n).map fun i =>
+        [(segments - 1) * n + i, i, (i + 1) % n, (segments - 1) * n + (i + 1) % n]) ∨
+    (degrees ≠ 360 ∧ ∃ sc ec,
+      Tri.triangulate3d (profile2.map fun q => (⟨q.x, 0, q.y⟩ : Pt3 ℝ)) ⟨0, -1, 0⟩ = some sc ∧
+      Tri.triangulate3dRev (profile2.map fun q => (⟨q.x, 0, q.y⟩ : Pt3 ℝ)) ⟨0, -1, 0⟩ = some ec ∧
+      p.faces = triFaces 0 sc ++ body ++ stripRev n (segments - 1) segments ++ triFaces (segments * n) ec) := by
+  intro n body
+  unfold rotateExtrude at h
+  by_cases hr : (0 ≤ degrees ∧ degrees ≤ 360)
+  · by_cases hs : segments < 3
+    · simp [hr, hs] at h
+    · by_cases hd : degrees = 360
+      · have e : Cmp.eqb (360 : ℝ) 360 = true := (eqb_real _ _).mpr rfl
+        subst hd
+        simp [hs, e] at h
+        subst h
+        left
+        exact ⟨rfl, by simp [body, n]⟩
+      · have e : Cmp.eqb degrees (360 : ℝ) = false := by
+          rw [Bool.eq_false_iff]; intro hc; exact hd ((eqb_real _ _).mp hc)
+        simp [hr, hs, e] at h
+        obtain ⟨sc, hsc, h⟩ := C05.bind_some h
+        obtain ⟨ec, hec, h⟩ := C05.bind_some h
+        injection h with h; subst h
+        right
+        refine ⟨hd, ?_⟩
+        cases hsc' : Tri.triangulate3d (profile2.map fun q => (⟨q.x, 0, q.y⟩ : Pt3 ℝ)) ⟨0, -1, 0⟩ with
+        | none => simp [hsc'] at hsc
+        | some sc0 =>
+          simp [hsc'] at hsc
+          subst hsc
+          exact ⟨sc0, ec, rfl, hec, by simp [body, n]⟩
+  · have hc : (decide (0 ≤ degrees) && decide (degrees ≤ 360)) = false := by
+      rw [Bool.eq_false_iff]; intro hc; simp at hc; exact hr hc
+    simp [hc] at h
+    exact absurd h.1 hr
+
+/-- the face list of a sweep -/
+theorem sweep_faces (profile2 : List (Pt2 ℝ)) (path : List (Pt3 ℝ)) (twist : ℝ) (closed : Bool) (p : Polyhedron ℝ)
+    (h : sweep profile2 path twist closed = some p) :
+    let n := profile2.length
+    let len := path.length
+    let body := ((List.range (len - 2)).flatMap fun j => strip n j (j + 1)) ++ strip n (len - 2) (len - 1)
+    2 ≤ len ∧
+    ((closed = true ∧ p.faces = body ++ (List.range n).map fun i =>
+        [(len - 1) * n + i, (len - 1) * n + (i + 1) % n, (i + 1) % n, i]) ∨
+     (closed = false ∧ ∃ sc ec : List Nat, p.faces = triFaces 0 sc ++ body ++ triFaces ((len - 1) * n) ec)) := by
+  intro n len body
+  unfold sweep at h
+  simp only [] at h
+  by_cases hl : path.length < 2
+  · simp [hl] at h
+  · refine ⟨by omega, ?_⟩
+    cases closed with
+    | true =>
+      simp [hl] at h
+      subst h
+      left
+      exact ⟨rfl, by simp [body, n, len]⟩
+    | false =>
+      simp [hl] at h
+      obtain ⟨sc, hsc, h⟩ := C05.bind_some h
+      obtain ⟨ec, _, h⟩ := C05.bind_some h
+      injection h with h; subst h
+      right
+      refine ⟨rfl, ?_⟩
+      obtain ⟨sc0, _, rfl⟩ := Option.map_eq_some_iff.mp hsc
+      exact ⟨sc0, ec, by simp [body, n, len]⟩
+
+
+/-- **C04, full revolve.** A 360° `rotate_extrude` is closed and consistently oriented at the level
+of edge multisets — every directed edge is matched by its reverse — for every profile and every
+segment count, unconditionally (it has no caps). -/
+theorem rotateExtrude_full_closed (profile2 : List (Pt2 ℝ)) (segments : Nat) (p : Polyhedron ℝ)
+    (h : rotateExtrude profile2 360 segments = some p) : EdgeClosed (allEdges p.faces) := by
+  rcases rotateExtrude_faces profile2 360 segments p h with ⟨_, hf⟩ | ⟨hne, _⟩
+  · rw [hf]; exact fullRevolve_closed profile2.length segments
+  · exact absurd rfl hne
+
+/-- **C04, partial revolve.** With caps that tile their rings the surface is closed. -/
+theorem rotateExtrude_partial_closed (profile2 : List (Pt2 ℝ)) (degrees : ℝ) (segments : Nat) (p : Polyhedron ℝ)
+    (h : rotateExtrude profile2 degrees segments = some p) (hd : degrees ≠ 360) (hs : 1 ≤ segments)
+    (hcaps : ∀ sc ec,
+      Tri.triangulate3d (profile2.map fun q => (⟨q.x, 0, q.y⟩ : Pt3 ℝ)) ⟨0, -1, 0⟩ = some sc →
+      Tri.triangulate3dRev (profile2.map fun q => (⟨q.x, 0, q.y⟩ : Pt3 ℝ)) ⟨0, -1, 0⟩ = some ec →
+      CapTiles profile2.length 0 true (triFaces 0 sc) ∧
+      CapTiles profile2.length segments false (triFaces (segments * profile2.length) ec)) :
+    EdgeClosed (allEdges p.faces) := by
+  rcases rotateExtrude_faces profile2 degrees segments p h with ⟨he, _⟩ | ⟨_, sc, ec, h1, h2, hf⟩
+  · exact absurd he hd
+  · obtain ⟨⟨d1, c1⟩, ⟨d2, c2⟩⟩ := hcaps sc ec h1 h2
+    have hb : ((List.range (segments - 1)).flatMap fun j => stripRev profile2.length j (j + 1)) ++
+        stripRev profile2.length (segments - 1) segments = revolveBody profile2.length segments := by
+      have : segments = (segments - 1) + 1 := by omega
+      conv_rhs => rw [this, revolveBody_succ]
+      rw [← this]; rfl
+    rw [hf, List.append_assoc (triFaces 0 sc), hb, allEdges_append, allEdges_append]
+    exact partialRevolve_closed profile2.length segments _ _ d1 d2 (by simpa using c1) (by simpa using c2)
+
+/-- **C04, closed sweep.** A sweep along a closed path is closed — for every profile, path and
+twist, unconditionally. -/
+theorem sweep_closed_closed (profile2 : List (Pt2 ℝ)) (path : List (Pt3 ℝ)) (twist : ℝ) (p : Polyhedron ℝ)
+    (h : sweep profile2 path twist true = some p) : EdgeClosed (allEdges p.faces) := by
+  obtain ⟨hl, ⟨_, hf⟩ | ⟨hc, _⟩⟩ := sweep_faces profile2 path twist true p h
+  · have hb : ((List.range (path.length - 2)).flatMap fun j => strip profile2.length j (j + 1)) ++
+        strip profile2.length (path.length - 2) (path.length - 1) = sweepBody profile2.length (path.length - 1) := by
+      have : path.length - 1 = (path.length - 2) + 1 := by omega
+      rw [this, sweepBody_succ]; rfl
+    rw [hf, hb]
+    exact closedSweep_closed profile2.length path.length
+  · simp at hc
+
+/-- no directed edge occurs twice in a quad strip between two different rings -/
+theorem strip_edges_nodup (n lo hi : Nat) (h : lo ≠ hi) : (allEdges (strip n lo hi)).Nodup :=
+  MeshLemmas.strip_edges_nodup n lo hi h
+
 /-- non-vacuity of the certificate: the two triangles of a square tile its ring -/
 example : CapTiles 4 0 true [[0, 1, 2], [0, 2, 3]] :=
   ⟨[(2, 0)], by decide⟩
